@@ -1,1 +1,411 @@
-/- C02 — theorems (placeholder until the property is built). -/
+/-
+  C02 — Cost volume holds the configured similarity measure, NaN where not computable.
+
+  Model and specification: `Model/MatchingCost.lean`.  Lemmas: `Lemmas/MC*.lean`.
+  The theorems say: for every input of the right shape (odd window, subpix > 0, equal image sizes,
+  global min ≤ max), every pixel and every sampled disparity, the cost volume the model computes by following
+  the code (shifted images, point intervals, sliding sums / census bit strings / cumulative-sum rasters,
+  dilated masks, `dsp` indexing, interval masking) is the cell the statement prescribes: the textbook value
+  of the measure when the cost is computable, NaN otherwise.  No size bound appears anywhere.
+-/
+import PandoraModel.Lemmas.MCMasked
+import PandoraModel.Lemmas.MCCensus
+import PandoraModel.Lemmas.MCCensusBits
+import PandoraModel.Lemmas.MCGrid
+import PandoraModel.Lemmas.MCCmax
+import PandoraModel.Lemmas.MCCauchy
+import PandoraModel.Generated.MatchingCostConsts
+
+namespace Pandora.C02
+open Pandora Pandora.MC
+
+/-! ### 0. What the translator read from the source is what the model uses -/
+
+/-- the bit-trick program of `Census.popcount32b` in the source text is the model's -/
+theorem popcount_source_eq_model : Generated.MatchingCostConsts.popcount32b = MC.popcount32b := by
+  funext row; rfl
+
+/-- the `type_measure` literals of the three classes are the model's -/
+theorem typeMeasure_source_eq_model : Generated.MatchingCostConsts.typeMeasure = MC.typeMeasure := by
+  funext m; cases m <;> rfl
+
+/-- the `cmax` expressions of the three classes are the model's -/
+theorem cmax_source_eq_model :
+    Generated.MatchingCostConsts.cmax = MC.cmaxOf Generated.MatchingCostConsts.cmaxRoundsUp := by
+  funext m a b c d w; cases m <;> rfl
+
+/-! ### 1. The cost volume is the specified one -/
+
+/-- From planes that are right before masking (`RawOK`, proved per measure below) to the whole step:
+    `compute_cost_volume` followed by `cv_masked` yields, at every pixel `(r, c)` and every sample `j` of the
+    disparity range, exactly the cell the statement prescribes (`val` = the value function of the measure). -/
+theorem costVolume_eq_specWith_of_raw (x : Input) (h : Shape x) (val : Int → Int → Int → Cell)
+    (hg : gridMin x.dminG x.L.rows x.L.cols ≤ gridMax x.dmaxG x.L.rows x.L.cols)
+    (hraw : RawOK x val) (r c : Int) (j : Nat)
+    (hj : j < nDisp (gridMin x.dminG x.L.rows x.L.cols) (gridMax x.dmaxG x.L.rows x.L.cols) x.sp) :
+    costVolume x r c j = specCellWith val x r c (gridMin x.dminG x.L.rows x.L.cols * (x.sp : Int) + j) := by
+  have hs := h.sp_pos
+  unfold costVolume intervalMask
+  simp only
+  set gmin := gridMin x.dminG x.L.rows x.L.cols with hgmin
+  set gmax := gridMax x.dmaxG x.L.rows x.L.cols with hgmax
+  set k : Int := gmin * (x.sp : Int) + j with hk
+  have hn := nDisp_eq gmin gmax x.sp hs hg
+  have hget := dispRange_getD gmin gmax x.sp hs hg j hj
+  rw [dispRange_eq gmin gmax x.sp hs hg] at *
+  have hjn : j < ((gmax - gmin) * (x.sp : Int)).toNat + 1 := by omega
+  unfold specCellWith
+  by_cases h1 : (k < x.dminG r c * (x.sp : Int) ∨ k > x.dmaxG r c * (x.sp : Int))
+  · rw [if_pos h1]
+    have hc : cause x r c k ≠ .computable := fun hc => ((cause_computable_iff x r c k).mp hc).1 h1
+    rw [if_neg hc]
+  · rw [if_neg h1, fold_steps x gmin _ _ r c j, if_pos hjn]
+    rw [masked_cell x h val hraw gmin _ k r c j (by omega) (by simp only [hget, hk])]
+    by_cases hc : cause x r c k = .computable
+    · rw [if_pos hc]
+      obtain ⟨_, h2, h3, h4, h5⟩ := (cause_computable_iff x r c k).mp hc
+      rw [if_pos ⟨h2, h3, h4, h5⟩]
+    · rw [if_neg hc]
+      have : ¬ (LeftInside x r c ∧ RightInside x c k ∧ maskOk (half x.w) x.mL r c = true ∧ maskOkR x r c k = true) :=
+        fun hh => hc ((cause_computable_iff x r c k).mpr ⟨h1, hh⟩)
+      rw [if_neg this]
+
+/-- the same with the textbook value function: the model volume is the specified volume -/
+theorem costVolume_eq_spec_of_raw (x : Input) (h : Shape x)
+    (hg : gridMin x.dminG x.L.rows x.L.cols ≤ gridMax x.dmaxG x.L.rows x.L.cols)
+    (hraw : RawOK x (valueSpec x)) (r c : Int) (j : Nat)
+    (hj : j < nDisp (gridMin x.dminG x.L.rows x.L.cols) (gridMax x.dmaxG x.L.rows x.L.cols) x.sp) :
+    costVolume x r c j = specVolume x r c j :=
+  costVolume_eq_specWith_of_raw x h (valueSpec x) hg hraw r c j hj
+
+/-- sad / ssd: the sliding sum over the NaN-padded pixel-wise volume, re-NaN-ed on the border, is the sum of
+    absolute / squared differences over the two windows, NaN exactly when a window leaves its image -/
+theorem rawOK_sad_ssd (x : Input) (h : Shape x) (hm : x.meas = .sad ∨ x.meas = .ssd) : RawOK x (valueSpec x) := by
+  intro k r c
+  unfold rawPlane
+  rcases hm with hm | hm <;> simp only [hm] <;> exact rawSadSsd_eq x h (by simp [hm]) k r c
+
+/-- zncc: the quotient built from the cumulative-sum mean and variance rasters is the zero-mean normalised
+    cross-correlation `cov / √(varL·varR)` (carried symbolically), `0` when a variance vanishes; hypothesis:
+    the `1e-15` threshold of `compute_std_raster` does not fire on a non-zero variance of a window that lies
+    in the image -/
+theorem rawOK_zncc (x : Input) (h : Shape x) (hm : x.meas = .zncc)
+    (hnt : ∀ k r c : Int, LeftInside x r c →
+      NoTiny x x.L.px r c ∧ NoTiny x (fun a b => interpR x.R x.sp k a b) r c) :
+    RawOK x (valueSpec x) := by
+  intro k r c
+  unfold rawPlane
+  simp only [hm]
+  exact rawZncc_eq x h hm k r c (fun hl => (hnt k r c hl).1) (fun hl => (hnt k r c hl).2)
+
+/-- **C02, sad and ssd.** -/
+theorem costVolume_eq_spec_sad_ssd (x : Input) (h : Shape x) (hm : x.meas = .sad ∨ x.meas = .ssd)
+    (hg : gridMin x.dminG x.L.rows x.L.cols ≤ gridMax x.dmaxG x.L.rows x.L.cols) (r c : Int) (j : Nat)
+    (hj : j < nDisp (gridMin x.dminG x.L.rows x.L.cols) (gridMax x.dmaxG x.L.rows x.L.cols) x.sp) :
+    costVolume x r c j = specVolume x r c j :=
+  costVolume_eq_spec_of_raw x h hg (rawOK_sad_ssd x h hm) r c j hj
+
+/-- **C02, zncc.** -/
+theorem costVolume_eq_spec_zncc (x : Input) (h : Shape x) (hm : x.meas = .zncc)
+    (hnt : ∀ k r c : Int, LeftInside x r c →
+      NoTiny x x.L.px r c ∧ NoTiny x (fun a b => interpR x.R x.sp k a b) r c)
+    (hg : gridMin x.dminG x.L.rows x.L.cols ≤ gridMax x.dmaxG x.L.rows x.L.cols) (r c : Int) (j : Nat)
+    (hj : j < nDisp (gridMin x.dminG x.L.rows x.L.cols) (gridMax x.dmaxG x.L.rows x.L.cols) x.sp) :
+    costVolume x r c j = specVolume x r c j :=
+  costVolume_eq_spec_of_raw x h hg (rawOK_zncc x h hm hnt) r c j hj
+
+/-! ### census -/
+
+/-- census, the code's own form of the value: popcount of the xor of the two census strings at the right places -/
+theorem rawOK_census_bits (x : Input) (h : Shape x) (hm : x.meas = .census) : RawOK x (valueCensusBits x) := by
+  intro k r c
+  unfold rawPlane
+  simp only [hm]
+  exact rawCensus_eq x h k r c
+
+/-- census: bit-packed comparison strings of the (truncated) census images, xor and the `popcount32b` bit
+    trick give the Hamming distance of the two strings of comparisons "neighbour > centre"; windows 3 and 5 -/
+theorem rawOK_census (x : Input) (h : Shape x) (hm : x.meas = .census) (hw : x.w = 3 ∨ x.w = 5) :
+    RawOK x (valueSpec x) := by
+  intro k r c
+  rw [rawOK_census_bits x h hm k r c]
+  split
+  · exact valueCensusBits_eq x hm hw r c k
+  · rfl
+
+/-- **C02, census.** -/
+theorem costVolume_eq_spec_census (x : Input) (h : Shape x) (hm : x.meas = .census) (hw : x.w = 3 ∨ x.w = 5)
+    (hg : gridMin x.dminG x.L.rows x.L.cols ≤ gridMax x.dmaxG x.L.rows x.L.cols) (r c : Int) (j : Nat)
+    (hj : j < nDisp (gridMin x.dminG x.L.rows x.L.cols) (gridMax x.dmaxG x.L.rows x.L.cols) x.sp) :
+    costVolume x r c j = specVolume x r c j :=
+  costVolume_eq_spec_of_raw x h hg (rawOK_census x h hm hw) r c j hj
+
+/-- `popcount_correct`: `Census.popcount32b` returns the number of set bits — here for any 32-bit argument
+    written with sixteen base-4 digits (`pop2 d` = number of set bits of the digit `d`) -/
+theorem popcount_correct (d0 d1 d2 d3 d4 d5 d6 d7 d8 d9 d10 d11 d12 d13 d14 d15 : Nat)
+    (h0 : d0 < 4) (h1 : d1 < 4) (h2 : d2 < 4) (h3 : d3 < 4) (h4 : d4 < 4) (h5 : d5 < 4) (h6 : d6 < 4) (h7 : d7 < 4)
+    (h8 : d8 < 4) (h9 : d9 < 4) (h10 : d10 < 4) (h11 : d11 < 4) (h12 : d12 < 4) (h13 : d13 < 4) (h14 : d14 < 4)
+    (h15 : d15 < 4) :
+    popcount32b (Popcount.digits 4 [d0, d1, d2, d3, d4, d5, d6, d7, d8, d9, d10, d11, d12, d13, d14, d15]) =
+      Popcount.pop2 d0 + Popcount.pop2 d1 + Popcount.pop2 d2 + Popcount.pop2 d3 + Popcount.pop2 d4 + Popcount.pop2 d5 +
+        Popcount.pop2 d6 + Popcount.pop2 d7 + Popcount.pop2 d8 + Popcount.pop2 d9 + Popcount.pop2 d10 +
+        Popcount.pop2 d11 + Popcount.pop2 d12 + Popcount.pop2 d13 + Popcount.pop2 d14 + Popcount.pop2 d15 :=
+  Popcount.popcount32b_digits d0 d1 d2 d3 d4 d5 d6 d7 d8 d9 d10 d11 d12 d13 d14 d15
+    h0 h1 h2 h3 h4 h5 h6 h7 h8 h9 h10 h11 h12 h13 h14 h15
+
+/-- `nan_iff_not_computable` for every measure, zncc included without the variance hypothesis: the cost is NaN
+    exactly when one of the causes of the statement holds -/
+theorem nan_iff_not_computable (x : Input) (h : Shape x) (val : Int → Int → Int → Cell) (hraw : RawOK x val)
+    (hval : ∀ r c k, (val r c k).isNan = false)
+    (hg : gridMin x.dminG x.L.rows x.L.cols ≤ gridMax x.dmaxG x.L.rows x.L.cols) (r c : Int) (j : Nat)
+    (hj : j < nDisp (gridMin x.dminG x.L.rows x.L.cols) (gridMax x.dmaxG x.L.rows x.L.cols) x.sp) :
+    (costVolume x r c j).isNan = true ↔
+      cause x r c (gridMin x.dminG x.L.rows x.L.cols * (x.sp : Int) + j) ≠ .computable := by
+  rw [costVolume_eq_specWith_of_raw x h val hg hraw r c j hj]
+  unfold specCellWith
+  split
+  · rename_i hc
+    simp [hc, hval]
+  · rename_i hc
+    simp [hc, Cell.isNan]
+
+/-! ### 2. One statement for the executable well-formedness predicate `wfShape` -/
+
+theorem shape_of_wf (x : Input) (h : wfShape x = true) : Shape x := by
+  unfold wfShape at h
+  simp only [Bool.and_eq_true, decide_eq_true_eq] at h
+  obtain ⟨⟨⟨⟨⟨⟨⟨h1, h2⟩, _⟩, h4⟩, h5⟩, h6⟩, _⟩, _⟩ := h
+  exact ⟨h1, h2, h5, h6, by omega⟩
+
+theorem gridOK_of_wf (x : Input) (h : wfShape x = true) :
+    gridMin x.dminG x.L.rows x.L.cols ≤ gridMax x.dmaxG x.L.rows x.L.cols := by
+  have hsh := shape_of_wf x h
+  unfold wfShape at h
+  simp only [Bool.and_eq_true, decide_eq_true_eq] at h
+  obtain ⟨⟨⟨⟨⟨⟨⟨h1, _⟩, h3⟩, _⟩, _⟩, _⟩, h7⟩, _⟩ := h
+  have hrows : 0 < x.L.rows := by omega
+  apply gridMin_le_gridMax x.dminG x.dmaxG x.L.rows x.L.cols hrows hsh.cols_pos
+  unfold gridOrdered at h7
+  have h0 := (allZ_iff_int _ _ _).mp h7 0 (le_refl _) (by omega)
+  have h00 := (allZ_iff_int _ _ _).mp h0 0 (le_refl _) (by have := hsh.cols_pos; omega)
+  simpa using h00
+
+theorem census_window_of_wf (x : Input) (h : wfShape x = true) (hm : x.meas = .census) : x.w = 3 ∨ x.w = 5 := by
+  unfold wfShape at h
+  simp only [Bool.and_eq_true, Bool.or_eq_true, decide_eq_true_eq] at h
+  rcases h.2 with hne | hw
+  · simp [hm] at hne
+  · exact hw
+
+/-- the zncc hypothesis as the Bool the driver evaluates (`noTinyVariance`, per sampled disparity) -/
+theorem noTiny_of_bool (x : Input) (k r c : Int) (hr : 0 ≤ r ∧ r < x.L.rows) (hc : 0 ≤ c ∧ c < x.L.cols)
+    (h : noTinyVariance x k = true) :
+    NoTiny x x.L.px r c ∧ NoTiny x (fun a b => interpR x.R x.sp k a b) r c := by
+  unfold noTinyVariance at h
+  have h1 := (allZ_iff_int _ _ _).mp h r hr.1 (by omega)
+  have h2 := (allZ_iff_int _ _ _).mp h1 c hc.1 (by omega)
+  simp only [Bool.and_eq_true, decide_eq_true_eq] at h2
+  exact ⟨h2.1, h2.2⟩
+
+/-- **C02 (all measures).**  For every input accepted by the decidable predicate `wfShape` (odd window, positive
+    subpix, images of the same size at least as large as the window, per-pixel `min ≤ max`, census window 3 or 5;
+    nothing about where the interval lies)
+    — and, for zncc, such that the `1e-15` variance threshold never fires on a non-zero variance
+    (`noTinyVariance`, decidable) — the cost volume computed by the model of the code equals, cell by cell, the
+    volume the statement prescribes: the textbook measure where the cost is computable, NaN otherwise. -/
+theorem costVolume_eq_spec (x : Input) (hwf : wfShape x = true)
+    (hz : x.meas = .zncc → ∀ k : Int, noTinyVariance x k = true) (r c : Int) (j : Nat)
+    (hj : j < nDisp (gridMin x.dminG x.L.rows x.L.cols) (gridMax x.dmaxG x.L.rows x.L.cols) x.sp) :
+    costVolume x r c j = specVolume x r c j := by
+  have hsh := shape_of_wf x hwf
+  have hg := gridOK_of_wf x hwf
+  cases hm : x.meas with
+  | sad => exact costVolume_eq_spec_sad_ssd x hsh (Or.inl hm) hg r c j hj
+  | ssd => exact costVolume_eq_spec_sad_ssd x hsh (Or.inr hm) hg r c j hj
+  | census => exact costVolume_eq_spec_census x hsh hm (census_window_of_wf x hwf hm) hg r c j hj
+  | zncc =>
+    refine costVolume_eq_spec_zncc x hsh hm ?_ hg r c j hj
+    intro k r' c' hl
+    obtain ⟨hl1, hl2, hl3, hl4⟩ := hl
+    exact noTiny_of_bool x k r' c' ⟨by omega, by omega⟩ ⟨by omega, by omega⟩ (hz hm k)
+
+/-! ### 2b. `cmax_bound` and `type_measure` -/
+
+/-- the quantity whose integer rounding is stored as `cmax` -/
+def cmaxExact (x : Input) : Rat :=
+  match x.meas with
+  | .sad => sadBound x
+  | .ssd => ssdBound x
+  | .census => (((x.w : Nat) : Rat) * ((x.w : Nat) : Rat))
+  | .zncc => 1
+
+theorem cmax_is_rounding (up : Bool) (x : Input) (hm : x.meas = .sad ∨ x.meas = .ssd) :
+    cmax up x = roundCmax up (cmaxExact x) := by
+  unfold cmax cmaxOf cmaxExact sadBound ssdBound
+  rcases hm with hm | hm <;> simp only [hm]
+
+/-- every numeric cost of the volume is bounded by the un-rounded `cmax` expression (sad, ssd, census) -/
+theorem cost_le_cmaxExact (x : Input) (hwf : wfShape x = true) (hm : x.meas ≠ .zncc) (r c : Int) (j : Nat)
+    (hj : j < nDisp (gridMin x.dminG x.L.rows x.L.cols) (gridMax x.dmaxG x.L.rows x.L.cols) x.sp)
+    (q : Rat) (hq : costVolume x r c j = .num q) : q ≤ cmaxExact x := by
+  have hsh := shape_of_wf x hwf
+  rw [costVolume_eq_spec x hwf (fun h => absurd h hm) r c j hj] at hq
+  unfold specVolume specCell at hq
+  split at hq
+  · rename_i hc
+    obtain ⟨_, hl, hr, _, _⟩ := (cause_computable_iff x r c _).mp hc
+    unfold cmaxExact
+    cases hmeas : x.meas with
+    | sad =>
+      obtain ⟨q', h1, h2⟩ := sad_value_le x hsh hmeas r c _ hl hr
+      rw [h1] at hq
+      simp only [Cell.num.injEq] at hq
+      simpa [← hq] using h2
+    | ssd =>
+      obtain ⟨q', h1, h2⟩ := ssd_value_le x hsh hmeas r c _ hl hr
+      rw [h1] at hq
+      simp only [Cell.num.injEq] at hq
+      simpa [← hq] using h2
+    | census =>
+      unfold valueSpec at hq
+      simp only [hmeas, Cell.num.injEq] at hq
+      have hw := window_eq x hsh
+      have := winCount_le (half x.w) (fun a b => decide (x.L.px a b > x.L.px r c) !=
+        decide (interpR x.R x.sp (gridMin x.dminG x.L.rows x.L.cols * (x.sp : Int) + j) a b >
+          interpR x.R x.sp (gridMin x.dminG x.L.rows x.L.cols * (x.sp : Int) + j) r c)) r c
+      rw [← hw] at this
+      rw [← hq]
+      simp only
+      exact_mod_cast this
+    | zncc => exact absurd hmeas hm
+  · simp at hq
+
+/-- `cmax_bound` for the code after the proposed fix C02-cmax-ceil (`int(np.ceil(..))`): cost ≤ cmax -/
+theorem cmax_bound_up (x : Input) (hwf : wfShape x = true) (hm : x.meas = .sad ∨ x.meas = .ssd) (r c : Int) (j : Nat)
+    (hj : j < nDisp (gridMin x.dminG x.L.rows x.L.cols) (gridMax x.dmaxG x.L.rows x.L.cols) x.sp)
+    (q : Rat) (hq : costVolume x r c j = .num q) : q ≤ ((cmax true x : Int) : Rat) := by
+  have hne : x.meas ≠ .zncc := by rcases hm with h | h <;> simp [h]
+  have h1 := cost_le_cmaxExact x hwf hne r c j hj q hq
+  rw [cmax_is_rounding true x hm]
+  exact le_trans h1 Rat.le_ceil
+
+/-- `cmax_bound` for the code as it stands (`int(..)` truncates): cost < cmax + 1, i.e. cost ≤ cmax whenever the
+    un-rounded bound is an integer (integer radiometry at integer disparities); with non-integer radiometry a cost
+    can exceed `cmax` by less than one — finding C02-F3 -/
+theorem cmax_bound_partial (x : Input) (hwf : wfShape x = true) (hm : x.meas = .sad ∨ x.meas = .ssd) (r c : Int) (j : Nat)
+    (hj : j < nDisp (gridMin x.dminG x.L.rows x.L.cols) (gridMax x.dmaxG x.L.rows x.L.cols) x.sp)
+    (q : Rat) (hq : costVolume x r c j = .num q) : q < ((cmax false x + 1 : Int) : Rat) := by
+  have hne : x.meas ≠ .zncc := by rcases hm with h | h <;> simp [h]
+  have h1 := cost_le_cmaxExact x hwf hne r c j hj q hq
+  rw [cmax_is_rounding false x hm]
+  exact lt_of_le_of_lt h1 (Rat.lt_floor_add_one _)
+
+/-- `cmax_bound`, census: cost ≤ cmax = w² (either rounding) -/
+theorem cmax_bound_census (up : Bool) (x : Input) (hwf : wfShape x = true) (hm : x.meas = .census) (r c : Int) (j : Nat)
+    (hj : j < nDisp (gridMin x.dminG x.L.rows x.L.cols) (gridMax x.dmaxG x.L.rows x.L.cols) x.sp)
+    (q : Rat) (hq : costVolume x r c j = .num q) : q ≤ ((cmax up x : Int) : Rat) := by
+  have hne : x.meas ≠ .zncc := by simp [hm]
+  have h1 := cost_le_cmaxExact x hwf hne r c j hj q hq
+  have hc : cmax up x = ((x.w * x.w : Nat) : Int) := by
+    unfold cmax cmaxOf roundCmax
+    simp only [hm]
+    have : (((x.w : Nat) : Rat) * ((x.w : Nat) : Rat)) = (((x.w * x.w : Nat) : Int) : Rat) := by push_cast; ring
+    rw [this, Rat.floor_intCast]
+    simp
+  rw [hc]
+  unfold cmaxExact at h1
+  simp only [hm] at h1
+  have : (((x.w : Nat) : Rat) * ((x.w : Nat) : Rat)) = ((((x.w * x.w : Nat) : Int)) : Rat) := by push_cast; ring
+  rw [this] at h1
+  exact h1
+
+/-- `cmax_bound`, zncc: every symbolic cell `cov/√vv` of the volume has `cov² ≤ vv`, i.e. `|zncc| ≤ 1 = cmax`
+    (Cauchy–Schwarz over the window) -/
+theorem cmax_bound_zncc (x : Input) (hwf : wfShape x = true) (hm : x.meas = .zncc)
+    (hz : ∀ k : Int, noTinyVariance x k = true) (r c : Int) (j : Nat)
+    (hj : j < nDisp (gridMin x.dminG x.L.rows x.L.cols) (gridMax x.dmaxG x.L.rows x.L.cols) x.sp)
+    (cov vv : Rat) (hq : costVolume x r c j = .zn cov vv) : cov * cov ≤ vv := by
+  have hsh := shape_of_wf x hwf
+  have hw := window_eq x hsh
+  rw [costVolume_eq_spec x hwf (fun _ => hz) r c j hj] at hq
+  unfold specVolume specCell at hq
+  split at hq
+  · unfold valueSpec at hq
+    simp only [hm] at hq
+    split at hq
+    · simp at hq
+    · simp only [Cell.zn.injEq] at hq
+      obtain ⟨h1, h2⟩ := hq
+      set k := gridMin x.dminG x.L.rows x.L.cols * (x.sp : Int) + j
+      set g : Int → Int → Rat := fun a b => interpR x.R x.sp k a b with hg
+      have hcs := cauchy_window (half x.w) x.L.px g r c
+      simp only at hcs
+      have hN : ((x.w * x.w : Nat) : Rat) = ((2 * half x.w + 1 : Nat) : Rat) * ((2 * half x.w + 1 : Nat) : Rat) := by
+        rw [← hw]; push_cast; ring
+      set N : Rat := ((2 * half x.w + 1 : Nat) : Rat) * ((2 * half x.w + 1 : Nat) : Rat) with hNdef
+      have hNpos : 0 < N := by
+        have : (0 : Rat) < ((2 * half x.w + 1 : Nat) : Rat) := by exact_mod_cast Nat.succ_pos _
+        exact mul_pos this this
+      set Sx := winSum (half x.w) x.L.px r c
+      set Sy := winSum (half x.w) g r c
+      set Sxy := winSum (half x.w) (fun a b => x.L.px a b * g a b) r c
+      set Sxx := winSum (half x.w) (fun a b => x.L.px a b * x.L.px a b) r c
+      set Syy := winSum (half x.w) (fun a b => g a b * g a b) r c
+      rw [hN] at h1 h2
+      have hN0 : N ≠ 0 := ne_of_gt hNpos
+      have ecov : cov = (N * Sxy - Sx * Sy) / (N * N) := by rw [← h1]; field_simp
+      have evv : vv = ((N * Sxx - Sx * Sx) * (N * Syy - Sy * Sy)) / ((N * N) * (N * N)) := by rw [← h2]; field_simp
+      rw [ecov, evv, div_mul_div_comm]
+      exact div_le_div_of_nonneg_right hcs (le_of_lt (mul_pos (mul_pos hNpos hNpos) (mul_pos hNpos hNpos)))
+  · simp at hq
+
+/-- the truncated `cmax` of the code can be exceeded: radiometry in quarters, window 1 (finding C02-F3) -/
+theorem cmax_bound_counterexample :
+    ∃ (maxL minL maxR minR : Rat), (cmaxOf false .sad maxL minL maxR minR 1 : Int) = 1 ∧
+      ratAbs (maxL - minR) = 3 / 2 := by
+  refine ⟨7 / 4, 1 / 4, 7 / 4, 1 / 4, ?_, ?_⟩
+  · unfold cmaxOf roundCmax ratMax ratAbs
+    have e : ((if ((7 : Rat) / 4 - 1 / 4 < 0) then -((7 : Rat) / 4 - 1 / 4) else (7 : Rat) / 4 - 1 / 4)) = 3 / 2 := by norm_num
+    simp only [e, le_refl, if_true, Bool.false_eq_true, if_false]
+    have h1 : (1 : Int) ≤ ((3 : Rat) / 2 * (((1 : Nat) : Rat) * ((1 : Nat) : Rat))).floor := Rat.le_floor_iff.mpr (by norm_num)
+    have h2 : ((3 : Rat) / 2 * (((1 : Nat) : Rat) * ((1 : Nat) : Rat))).floor < 2 := Rat.floor_lt_iff.mpr (by norm_num)
+    omega
+  · unfold ratAbs; norm_num
+
+/-! ### 3. Non-vacuity: a concrete input satisfies the hypotheses and has computable and non-computable cells -/
+
+namespace Example
+
+def exL : Img := { rows := 3, cols := 4, px := fun r c => ((r * r + 2 * c : Int) : Rat) }
+def exR : Img := { rows := 3, cols := 4, px := fun r c => ((r * r + 2 * c - 1 : Int) : Rat) }
+/-- one invalid pixel (code 2) at row 1, column 2 -/
+def exMask : Mask := { present := true, code := fun r c => if r = 1 ∧ c = 2 then 2 else 0, valid := 0, nodata := 1 }
+/-- 3×4 pair, window 3, subpix 2, per-pixel grids `[-1, 1]` (`[0, 1]` in column 0), masks on both sides -/
+def exIn (m : Measure) : Input where
+  meas := m
+  w := 3
+  sp := 2
+  L := exL
+  R := exR
+  mL := exMask
+  mR := exMask
+  dminG := fun _ c => if c = 0 then 0 else -1
+  dmaxG := fun _ _ => 1
+
+example : wf (exIn .sad) = true := by decide
+example : wf (exIn .ssd) = true := by decide
+example : wf (exIn .census) = true := by decide
+example : wf (exIn .zncc) = true := by decide
+example : cause (exIn .sad) 1 1 0 = .computable := by decide
+example : cause (exIn .sad) 1 1 2 = .maskedRight := by decide
+example : cause (exIn .sad) 1 1 (-1) = .windowRight := by decide
+example : cause (exIn .sad) 0 1 0 = .windowLeft := by decide
+example : cause (exIn .sad) 1 0 (-2) = .outsideInterval := by decide
+example : NoTiny (exIn .zncc) (exIn .zncc).L.px 1 1 := by
+  unfold NoTiny winSum
+  simp only [exIn, exL, half, sumZ, tiny, ratAbs]
+  norm_num
+
+end Example
+
+end Pandora.C02
